@@ -48,7 +48,7 @@ class Wrapped:
         raise ValueError(i)
 
 
-def scenario(calls, close_before=False, via_eventloopthread=False, burst=1):
+def scenario(calls, close_before=False, via_eventloopthread=False, burst=1, hold=False):
     """calls: list of (kind, src) or (kind, src, look).  look = the loop on which the proxy attribute is looked up
     (default: the calling loop); a bound wrapper fetched on one loop and invoked from the other must behave like a
     call made from the invoking loop.  Returns {'caller': [...], 'owner': [...]}"""
@@ -151,7 +151,21 @@ def scenario(calls, close_before=False, via_eventloopthread=False, burst=1):
                     # a call made from the owner's own loop
                     fut = asyncio.run_coroutine_threadsafe(one(idx, kind, 0, caller_log, pres.get(idx)), owner_loop)
                     tasks.append(asyncio.wrap_future(fut))
-            if tasks:
+            if tasks and hold and not close_before:
+                # the owner's loop is kept busy while the whole burst is issued: every call of the burst is queued behind the blocker
+                started, release = threading.Event(), threading.Event()
+
+                def blocker():
+                    started.set()
+                    release.wait(10)
+                owner_loop.call_soon_threadsafe(blocker)
+                started.wait(10)
+                futs = [asyncio.ensure_future(t) for t in tasks]
+                for _ in range(3):
+                    await asyncio.sleep(0)
+                release.set()
+                await asyncio.gather(*futs)
+            elif tasks:
                 await asyncio.gather(*tasks)
         await asyncio.sleep(0.02)
     caller_loop = asyncio.new_event_loop()
@@ -197,14 +211,26 @@ def run(ctx: Ctx):
         scen.append(([(rng.choice(KINDS), "other") for _ in range(burst)], True, burst))
     reps = 3 if ctx.quick else 80
     traces, metas = [], []
+    # bursts issued while the owner's loop is busy (all calls of the burst queued before any runs), failing kinds in every position
+    held = []
+    for bad in ("plainVal", "plainRaise", "coroRaise"):
+        for pos in range(4):
+            calls = [("plainNone", "other")] * 4
+            calls[pos] = (bad, "other")
+            held.append((calls + [("coroVal", "other"), ("plainNone", "other")], False, 6))
+    for _ in range(4 if ctx.quick else 30):
+        held.append(([(rng.choice(KINDS), rng.choice(("other", "other", "owner")), rng.choice(("other", "owner"))) for _ in range(12)], False, 12))
     for r in range(reps):
         for calls, closed, burst in scen:
             traces.append(scenario(calls, close_before=closed, burst=burst))
             metas.append({"calls": calls, "closed": closed, "burst": burst, "rep": r})
+        for calls, closed, burst in held:
+            traces.append(scenario(calls, close_before=closed, burst=burst, hold=True))
+            metas.append({"calls": calls, "closed": closed, "burst": burst, "rep": r, "hold": True})
     ctx.evaluations = len(traces)
     ctx.distinct_nontrivial = len({str((m["calls"], m["closed"], m["burst"])) for m in metas})
     ctx.rule = ("every method kind (coroutine returning / raising, plain returning nothing / a value / raising, non-callable attribute) x caller loop "
-                "{owner's own loop, another thread's loop} x loop on which the proxy attribute was looked up {same, the other one} x owner-loop state {running, closed} as single calls, and bursts of 10 and 40/100 concurrent mixed calls; "
+                "{owner's own loop, another thread's loop} (also as bursts queued while the owner's loop is busy, with failing kinds in every position) x loop on which the proxy attribute was looked up {same, the other one} x owner-loop state {running, closed} as single calls, and bursts of 10 and 40/100 concurrent mixed calls; "
                 f"each scenario repeated {reps} times with real threads; distinct = distinct (calls, owner state, burst)")
     ctx.add_sample({"meta": metas[0], "trace": traces[0]})
 
@@ -219,6 +245,6 @@ def run(ctx: Ctx):
 
 def replay(ctx: Ctx, data):
     m = data["replay"]["meta"]
-    tr = scenario([tuple(c) for c in m["calls"]], close_before=m["closed"], burst=m["burst"])
+    tr = scenario([tuple(c) for c in m["calls"]], close_before=m["closed"], burst=m["burst"], hold=bool(m.get("hold")))
     ctx.validate_traces("Trace_ThreadProxy", [tr], metas=[m], label="thread proxy", length_of=length_of, dfs=True)
     ctx.add_sample(tr)
